@@ -57,6 +57,13 @@ func (s S) Pair() (int, string) { return s.A, s.B }
 // NewS returns a struct with the sentinel planted in the unexported field.
 func NewS() *S { s := &S{}; s.hid = HidSentinel; return s }
 
+// Outer is bridged by pointer; In is live Go memory reached as o.In, PI may be made to point at it.
+type Outer struct {
+	In Inner `json:"in"`
+	PI *Inner
+	N  int
+}
+
 // Holder is bridged by pointer; its fields are addressable containers reached as h.Items, h.Arr, h.Tab.
 type Holder struct {
 	Items []int
@@ -196,6 +203,7 @@ func init() {
 	reg("*S", (*S)(nil))
 	reg("Inner", Inner{})
 	reg("Holder", Holder{})
+	reg("Outer", Outer{})
 	regT("TwinA", twinA())
 	regT("TwinB", twinB())
 	regT("*TwinA", reflect.PointerTo(twinA()))
